@@ -356,9 +356,12 @@ fn determine_worker_count(config: &config::Encoder) -> Result<usize, SourceError
         .and_then(|s| s.parse::<usize>().ok())
         .filter(|&n| n > 0)
         .unwrap_or(default_parallelism);
+    // Threads and frame buffers are allocated per worker; an arbitrarily large
+    // request cannot be served (and would overflow the buffer count).
     Ok(config
         .workers
-        .map_or(default_parallelism, NonZeroUsize::get))
+        .map_or(default_parallelism, NonZeroUsize::get)
+        .min(constant::par::MAX_WORKERS))
 }
 
 /// Parallel version of `encode_with_fixed_block_size`.
